@@ -126,6 +126,13 @@ def canon(e, env=None):
     return (k or '?') + '@%s' % e.get('l')
 
 
+INT_CASTS = {'long': (64, True), 'long long': (64, True), 'ssize_t': (64, True), 'int64_t': (64, True), 'off_t': (64, True), 'CK_LONG': (64, True), 'long int': (64, True),
+             'unsigned long': (64, False), 'size_t': (64, False), 'CK_ULONG': (64, False), 'uint64_t': (64, False), 'unsigned long long': (64, False), 'unsigned long int': (64, False),
+             'int': (32, True), 'int32_t': (32, True), 'unsigned int': (32, False), 'uint32_t': (32, False), 'unsigned': (32, False),
+             'short': (16, True), 'unsigned short': (16, False), 'uint16_t': (16, False),
+             'unsigned char': (8, False), 'uint8_t': (8, False), 'CK_BYTE': (8, False), 'CK_BBOOL': (8, False), 'signed char': (8, True), 'char': (8, True)}
+
+
 class St:
     __slots__ = ('env', 'facts', 'aut', 'path')
 
@@ -486,7 +493,18 @@ class Interp:
     cenv_rx = ()     # [(compiled regex over canonical strings, int)]
 
     def ceval(self, e, st):
-        """Concrete value of an expression under self.cenv, or None if it depends on anything else."""
+        """Concrete value of an expression under self.cenv, or None if it depends on anything else.  An explicit cast to an integer type wraps the value into that type (LP64)."""
+        v = self.ceval_raw(e, st)
+        if v is not None and isinstance(e, dict) and e.get('cast') and isinstance(v, int) and not isinstance(v, bool):
+            w = INT_CASTS.get(e['cast'].replace('const ', '').strip())
+            if w is not None:
+                bits, signed = w
+                v &= (1 << bits) - 1
+                if signed and v >= 1 << (bits - 1):
+                    v -= 1 << bits
+        return v
+
+    def ceval_raw(self, e, st):
         if e is None:
             return None
         k = e.get('k')
